@@ -101,6 +101,9 @@ func EncryptAES(payload, passphrase []byte) ([]byte, []byte, error) {
 
 // DecryptValueKey decrypts the value key using the passphrase
 func DecryptValueKey(valKey, mh multihash.Multihash) ([]byte, error) {
+	if len(valKey) <= nonceLen {
+		return nil, errors.New("encrypted value key too short")
+	}
 	return DecryptAES(valKey[:nonceLen], valKey[nonceLen:], mh)
 }
 
